@@ -57,7 +57,7 @@ package sm2
 // are results of curve arithmetic - assumed to fit)
 //@ func bigIntToBytes property C13
 //@   requires curve != nil && value != nil
-//@   ensures len(result) == (CURVEBITS(id(curve)) + 7) / 8
+//@   ensures len(result) == (CURVEBITS(id(curve)) + 7) / 8 && BEV(arr(result), offof(result), len(result)) == ghost(bigv, value)
 //@   fresh result
 //@   modifies nothing
 
@@ -208,3 +208,95 @@ package sm2
 //@   assert before call encodeSignature#1: BEV(arr(arg1), offof(arg1), len(arg1)) == MULM((K0 - MULM(DV, BEV(arr(arg0), offof(arg0), len(arg0)), N)) % N, DINV, N) && BEV(arr(arg1), offof(arg1), len(arg1)) != 0
 //@   heapnonnil
 //@   modifies everything
+
+// ---- key agreement (C08), over ASSUMED integer and curve arithmetic (ghost values of big.Int, abstract
+// ECMUL/ECADD/ECBASE): the implicit signature t = (d + x~ * r) mod n with x~ = 2^w + (x & (2^w - 1)),
+// V = [t](P_peer + [x~_peer] R_peer); the peer's ephemeral point is used only after the on-curve check;
+// the shared key is KDF(xV || yV || ZA || ZB) with ZA always the initiator's, and a key comes back only
+// after the optional confirmation value compared equal.
+//@ pred kestate(ke) := ke != nil && ke.privateKey != nil && ke.privateKey.Curve != nil && ke.privateKey.D != nil && ke.secret != nil && ke.peerSecret != nil && ke.v != nil && ke.w2 != nil && ke.w2Minus1 != nil && CURVEN(id(ke.privateKey.Curve)) > 1 && ghost(bigv, ke.w2) >= 0 && ghost(bigv, ke.w2Minus1) >= 0 && ke.secret != ke.v
+
+//@ func (*KeyExchange).avf property C08
+//@   requires ke != nil && ke.w2 != nil && ke.w2Minus1 != nil && x != nil && ghost(bigv, ke.w2) >= 0 && ghost(bigv, ke.w2Minus1) >= 0 && ke.secret != ke.v
+//@   ensures result != nil && ghost(bigv, result) == ghost(bigv, ke.w2) + BAND(ghost(bigv, ke.w2Minus1), ghost(bigv, x)) && ghost(bigv, result) >= 0
+//@   fresh result
+//@   modifies nothing
+
+//@ func (*KeyExchange).mqv property C08
+//@   requires kestate(ke) && ke.peerPub != nil && ke.r != nil && ke.secret.X != nil && ke.peerSecret.X != nil && ke.peerSecret.Y != nil && ke.peerPub.X != nil && ke.peerPub.Y != nil
+//@   requires ONCURVE(id(ke.privateKey.Curve), objof(ke.peerSecret.X), objof(ke.peerSecret.Y)) && ONCURVE(id(ke.privateKey.Curve), objof(ke.peerPub.X), objof(ke.peerPub.Y))
+//@   let C := id(ke.privateKey.Curve)
+//@   let N := CURVEN(id(ke.privateKey.Curve))
+//@   let W2 := ghost(bigv, ke.w2)
+//@   let WM := ghost(bigv, ke.w2Minus1)
+//@   let T := (BMUL(W2 + BAND(WM, ghost(bigv, ke.secret.X)), ghost(bigv, ke.r)) + ghost(bigv, ke.privateKey.D)) % N
+//@   let XB := W2 + BAND(WM, ghost(bigv, ke.peerSecret.X))
+//@   let RX := ghost(bigv, ke.peerSecret.X)
+//@   let RY := ghost(bigv, ke.peerSecret.Y)
+//@   let QX := ECADDX(C, ghost(bigv, ke.peerPub.X), ghost(bigv, ke.peerPub.Y), ECMULX(C, RX, RY, XB), ECMULY(C, RX, RY, XB))
+//@   let QY := ECADDY(C, ghost(bigv, ke.peerPub.X), ghost(bigv, ke.peerPub.Y), ECMULX(C, RX, RY, XB), ECMULY(C, RX, RY, XB))
+//@   ensures ke.v.X != nil && ke.v.Y != nil && ghost(bigv, ke.v.X) == ECMULX(C, QX, QY, T) && ghost(bigv, ke.v.Y) == ECMULY(C, QX, QY, T)
+//@   modifies ke.v.X, ke.v.Y
+
+// the confirmation hash (S1/S2/SA/SB): assumed here (a frame only); its layout is not decided
+//@ func (*KeyExchange).sign trusted
+//@   ensures len(result) == 32
+//@   fresh result
+//@   modifies nothing
+
+// shared key: KDF over xV || yV || Z_initiator || Z_responder, of the configured length
+//@ func (*KeyExchange).generateSharedKey property C08
+//@   requires kestate(ke) && ke.v.X != nil && ke.v.Y != nil && 0 <= ke.keyLength && ke.keyLength <= 4000000000 && len(ke.z) <= 1000000 && len(ke.peerZ) <= 1000000
+//@   bind after call bigIntToBytes#1: XA := arr(result)
+//@   bind after call bigIntToBytes#1: XO := offof(result)
+//@   bind after call bigIntToBytes#1: FL := len(result)
+//@   bind after call bigIntToBytes#2: YA := arr(result)
+//@   bind after call bigIntToBytes#2: YO := offof(result)
+//@   let ZI := ite(isResponder, arr(ke.peerZ), arr(ke.z))
+//@   let ZIO := ite(isResponder, offof(ke.peerZ), offof(ke.z))
+//@   let ZIL := ite(isResponder, len(ke.peerZ), len(ke.z))
+//@   let ZR := ite(isResponder, arr(ke.z), arr(ke.peerZ))
+//@   let ZRO := ite(isResponder, offof(ke.z), offof(ke.peerZ))
+//@   let ZRL := ite(isResponder, len(ke.z), len(ke.peerZ))
+//@   assert before call Kdf#1: arg1 == ke.keyLength && len(arg0) == 2 * FL + ZIL + ZRL
+//@   assert before call Kdf#1: forall j :: 0 <= j && j < FL ==> arg0[j] == XA[XO + j] && arg0[FL + j] == YA[YO + j]
+//@   assert before call Kdf#1: forall j :: 0 <= j && j < ZIL ==> arg0[2 * FL + j] == ZI[ZIO + j]
+//@   assert before call Kdf#1: forall j :: 0 <= j && j < ZRL ==> arg0[2 * FL + ZIL + j] == ZR[ZRO + j]
+//@   ensures err == nil && len(result0) == ke.keyLength
+//@   modifies nothing
+
+//@ pred kepeer(ke) := ke.peerPub != nil ==> (ke.peerPub.X != nil && ke.peerPub.Y != nil && ONCURVE(id(ke.privateKey.Curve), objof(ke.peerPub.X), objof(ke.peerPub.Y)))
+
+// responder B1-B8: the initiator's ephemeral point is stored and used only if it is on the curve;
+// RB = [r]G; failure when V is the point at infinity
+//@ func respondKeyExchange property C08,C13
+//@   coverreturns
+//@   requires kestate(ke) && kepeer(ke) && rA != nil && rA.X != nil && rA.Y != nil && r != nil && ghost(bigv, r) >= 0 && ke.secret.X != nil && rA != ke.secret && rA != ke.v
+//@   let C := id(ke.privateKey.Curve)
+//@   ensures err == nil ==> ke.peerPub != nil && ONCURVE(C, old(objof(rA.X)), old(objof(rA.Y))) && ke.peerSecret == rA && ke.r == r && result0 == ke.secret
+//@   ensures err == nil ==> ghost(bigv, ke.secret.X) == ECBASEX(C, ghost(bigv, r)) && ghost(bigv, ke.secret.Y) == ECBASEY(C, ghost(bigv, r))
+//@   ensures err == nil ==> !(ghost(bigv, ke.v.X) == 0 && ghost(bigv, ke.v.Y) == 0)
+//@   ensures err == nil ==> (isnil(result1) <==> !ke.genSignature)
+//@   modifies ke.peerSecret, ke.secret.X, ke.secret.Y, ke.r, ke.v.X, ke.v.Y
+
+// initiator A4-A10: as above for RB; when the responder sent a confirmation value it must equal the
+// locally computed one before any key is returned
+//@ func (*KeyExchange).ConfirmResponder property C08,C13
+//@   requires kestate(ke) && kepeer(ke) && rB != nil && rB.X != nil && rB.Y != nil && ke.r != nil && ke.secret.X != nil && rB != ke.secret && rB != ke.v
+//@   requires 0 <= ke.keyLength && ke.keyLength <= 4000000000 && len(ke.z) <= 1000000 && len(ke.peerZ) <= 1000000
+//@   bind after call ConstantTimeCompare#1: CMP := result
+//@   ensures err == nil ==> ke.peerPub != nil && ONCURVE(id(ke.privateKey.Curve), old(objof(rB.X)), old(objof(rB.Y))) && ke.peerSecret == rB
+//@   ensures err == nil ==> !(ghost(bigv, ke.v.X) == 0 && ghost(bigv, ke.v.Y) == 0) && len(result0) == ke.keyLength
+//@   ensures err == nil && len(sB) > 0 ==> CMP == 1
+//@   ensures err != nil ==> isnil(result0) && isnil(result1)
+//@   modifies ke.peerSecret, ke.v.X, ke.v.Y
+
+// responder B10: a key only after the initiator's confirmation value (when given) compared equal
+//@ func (*KeyExchange).ConfirmInitiator property C08,C13
+//@   coverreturns
+//@   requires kestate(ke) && ke.v.X != nil && ke.v.Y != nil && 0 <= ke.keyLength && ke.keyLength <= 4000000000 && len(ke.z) <= 1000000 && len(ke.peerZ) <= 1000000
+//@   bind after call ConstantTimeCompare#1: CMP := result
+//@   ensures err == nil && !isnil(s1) ==> CMP == 1
+//@   ensures err == nil ==> len(result0) == ke.keyLength
+//@   ensures err != nil ==> isnil(result0)
+//@   modifies nothing
